@@ -15,7 +15,7 @@ from sa.model import Repo
 from sa.norm import T
 from sa.report import Check
 
-from .common import callee_name, depends_on, every_alt_has, flow_of, g, has_fact, mutation_sites, op_param, require_guards, rewriter_param, subexprs
+from .common import has_forall, callee_name, depends_on, every_alt_has, flow_of, g, has_fact, mutation_sites, op_param, require_guards, rewriter_param, subexprs
 
 CASTS = "snaxc/transforms/realize_memref_casts.py"
 SPACE = "snaxc/transforms/set_memory_space.py"
@@ -37,6 +37,7 @@ def run(repo: Repo, chk: Check) -> None:
     l1(repo, chk)
     boundary(repo, chk)
     const_guards(repo, chk)
+    alloc_dyn_sizes(repo, chk)
 
 
 # --------------------------------------------------------------------------- RealizeMemrefCasts
@@ -173,7 +174,7 @@ def l1(repo: Repo, chk: Check) -> None:
     ok_st = False
     for s in stores:
         idx = ast.unparse(s.node.targets[0].slice)
-        ok_st = ast.unparse(s.node.value) == f"memory_cast_ops[{op}.operands[{idx}]].dest" and bool(has_fact(s, [f"{op}.operands[{idx}] in $sel"]))
+        ok_st = norm.match(T(f"$tbl[{op}.operands[{idx}]].dest"), s.node.value) is not None and bool(has_fact(s, [f"{op}.operands[{idx}] in $sel"]))
     chk.result(ok_st, "C12.l1", f"{f.key}:replacement", stores[0].where() if stores else f.where, "operand i is replaced by the dest of the cast recorded for operand i",
                "an operand is not replaced by the dest of its own L1 cast")
     h = f.nested("get_cast_op")
@@ -221,7 +222,27 @@ def boundary(repo: Repo, chk: Check) -> None:
                "a returned memref in another space is cast to the space of the function type's result",
                "returned memrefs are not cast to the memory space declared by the function type")
     rets = [s for s in gfl.calls("ReturnOp") if s.reachable]
-    chk.result(any(ast.unparse(s.node.args[0]) == "*new_arguments" for s in rets if s.node.args), "C12.boundary", f"{g2.key}:all-results", rets[0].where() if rets else g2.where,
+    def _complete_list(site) -> bool:
+        """ReturnOp(*L) where L receives one element on every path through the loop over the function's outputs"""
+        a = site.node.args[0] if site.node.args else None
+        if not (isinstance(a, ast.Starred) and isinstance(a.value, ast.Name)):
+            return False
+        lst = a.value.id
+        loops = [n for n in ast.walk(g2.node) if isinstance(n, ast.For) and any(isinstance(c, ast.Call) and callee_name(c) == "append" and ast.unparse(c.func.value) == lst for c in ast.walk(n))]
+        if len(loops) != 1:
+            return False
+
+        def appends_on_all_paths(stmts) -> bool:
+            for st in stmts:
+                if isinstance(st, ast.Expr) and isinstance(st.value, ast.Call) and callee_name(st.value) == "append" and ast.unparse(st.value.func.value) == lst:
+                    return True
+                if isinstance(st, ast.If) and st.orelse and appends_on_all_paths(st.body) and appends_on_all_paths(st.orelse):
+                    return True
+            return False
+
+        return appends_on_all_paths(loops[0].body)
+
+    chk.result(any(_complete_list(s) for s in rets), "C12.boundary", f"{g2.key}:all-results", rets[0].where() if rets else g2.where,
                "the new return carries every result, cast or not")
 
 
@@ -279,7 +300,10 @@ def const_guards(repo: Repo, chk: Check) -> None:
             chk.result(okn, "C12.const-guards", f"{g2.key}:bails-on-none", tc[0].where(), "mutations after transform_constant require a non-None result",
                        "the pattern keeps rewriting although transform_constant gave up (returned None)")
         if extra == "all-users-are-casts":
-            ok = any(t.startswith("all((isinstance(use.operation, (LayoutCast, MemorySpaceCastOp))") or ("all((isinstance(use.operation" in t and "LayoutCast" in t) for t in first.fact_texts)
+            ok = has_forall(first, ["isinstance($v.operation, $cls)"], domain_ok=lambda d: norm.contains(d, T("$c.memref.uses")) or norm.contains(d, T("$c.uses"))) is not None and any(
+                "LayoutCast" in t for t in first.fact_texts)
+            if not ok:
+                ok = any(t.startswith("all((isinstance(") and "LayoutCast" in t and ".operation" in t for t in first.fact_texts)
             chk.result(ok, "C12.const-guards", f"{g2.key}:{extra}", first.where(), "an alloc is re-typed only if every user is a cast",
                        "an alloc is re-typed although it has users that are not casts (they keep addressing it with the old layout)", first.fact_texts)
         if extra == "no-other-reference":
@@ -294,3 +318,43 @@ def const_guards(repo: Repo, chk: Check) -> None:
             for name, ts in (("target-is-tsl", ["isinstance($o.dest.type.layout, TiledStridedLayoutAttr)"]), ("target-static", ["not $o.dest.type.layout.data.is_dynamic()"]),
                              ("global-layout-none", ["isinstance($s.source.type.layout, builtin.NoneAttr)"])):
                 chk.result(bool(has_fact(first, ts)), "C12.const-guards", f"{g2.key}:{name}", first.where(), f"only under `{name}`")
+
+
+# --------------------------------------------------------------------------- dynamic sizes of the realised buffer
+def alloc_dyn_sizes(repo: Repo, chk: Check) -> None:
+    chk.rule(
+        "C12.alloc-dyn-sizes",
+        "the buffer allocated for a realised cast gets one dynamic size operand per DYNAMIC dimension of the destination type, in dimension order, "
+        "each the memref.dim of the *source* at that very dimension index",
+        floor=2,
+    )
+    f, fl = flow_of(repo, chk, CASTS, "RealizeMemrefCasts.match_and_rewrite")
+    allocs = [s for s in fl.calls("get") if s.reachable and isinstance(s.node.func, ast.Attribute) and ast.unparse(s.node.func.value).endswith("AllocOp")]
+    if not allocs:
+        raise AnalysisError(f"{f.where}: allocation of the realised buffer not found")
+    s = allocs[0]
+    dyn = None
+    for k in s.node.keywords:
+        if k.arg == "dynamic_sizes":
+            dyn = k.value
+    if dyn is None or not isinstance(dyn, ast.Name):
+        raise AnalysisError(f"{s.where()}: dynamic_sizes argument not understood")
+    apps = [a for a in fl.calls("append") if a.reachable and ast.unparse(a.node.func.value) == dyn.id]  # type: ignore[attr-defined]
+    ok_guard = ok_dim = False
+    for a in apps:
+        lp = [l for l in a.loops if isinstance(l, ast.For)]
+        if not lp or not isinstance(lp[-1].target, ast.Name):
+            continue
+        iv = lp[-1].target.id
+        in_order = norm.match(T("range(len($sh))"), lp[-1].iter) is not None
+        guard = any(x.kind == "atom" and norm.any_match([f"$sh[{iv}] == builtin.DYNAMIC_INDEX", f"$sh[{iv}] == DYNAMIC_INDEX"], x.expr) is not None for x in a.facts)
+        ok_guard = ok_guard or (guard and in_order)
+        cone = fl.cone(a.node.args[0], a, inline=0)
+        for _, m in norm.find(T("memref.DimOp.from_source_and_index($src, $idx)"), cone) + norm.find(T("DimOp.from_source_and_index($src, $idx)"), cone):
+            idx_c = fl.cone(m["idx"], a, inline=0)
+            if norm.contains(idx_c, T(f"$c.from_int_and_width({iv}, $t)")) and norm.contains(m["src"], T("$o.source")):
+                ok_dim = True
+    chk.result(ok_guard, "C12.alloc-dyn-sizes", f"{f.key}:one-per-dynamic-dim", s.where(), "a size operand is appended exactly for the DYNAMIC dimensions, walking the dimensions in order",
+               "dynamic size operands are not appended under `shape[i] == DYNAMIC_INDEX` in dimension order")
+    chk.result(ok_dim, "C12.alloc-dyn-sizes", f"{f.key}:dim-of-source-at-i", s.where(), "the operand for dimension i is memref.dim(source, i)",
+               "the dynamic size of dimension i is not memref.dim of the source at index i")
